@@ -118,6 +118,10 @@ def r1_reverse_lookup(ctx):
             conds.append((r, ("notin", (0,)), -1, "bool"))   # `return test` = true when the test holds: handled as its own case below
         for (d, c, b, ty) in conds:
             truth = c != ("in", (0,))
+            if d == ("param", 1) and c[0] in ("in", "notin") and len(c[1]) == 1:
+                # `match colour { WHITE => .., _ => .. }`: a switch on the colour itself
+                colour = ("==%d" % c[1][0]) if c[0] == "in" else ("!=%d" % c[1][0])
+                continue
             if d[0] == "bin" and d[1] == "Eq" and ("param", 1) in (d[2], d[3]):
                 cst = d[3] if d[2] == ("param", 1) else d[2]
                 try:
